@@ -80,9 +80,26 @@ def render_affine(draw, coefs, const, env, allow_vector_forms=True, _inner=False
             if not any(sub):
                 continue
             style = draw(st.sampled_from(["elementwise", "lincomb", "lincomb", "vsum", "shifted", "slice", "matvecrow",
-                                          "reversed", "reversed"]))
+                                          "reversed", "reversed", "powsum", "dotconst"]))
             V = ["vvar", v["name"]]
-            if style == "vsum" and len(set(sub)) == 1:
+            if style == "powsum" and len(set(sub)) == 1:
+                # sum(x ** 1): a linear node of its own kind (VectorPowerSum), also over a reversed view
+                W = V if draw(st.booleans()) else ["slice", V, None, None, -1]
+                r = ["vsum", ["vpow", W, draw(st.sampled_from([1, 1.0]))]]
+                if sub[0] != 1:
+                    r = ["bin", "*", _cnum(draw, sub[0]), r] if draw(st.booleans()) else ["bin", "*", r, _cnum(draw, sub[0])]
+                if draw(st.integers(0, 2)) == 0:
+                    # sum(x ** 0) is the constant n
+                    r = ["bin", "+", r, ["vsum", ["vpow", V, 0]]]
+                    const -= v["n"]
+                forms.append("sum(x**1)")
+            elif style == "dotconst":
+                # dot product with a vector expression that holds only constants
+                cvec = ["vexpr", [["const", "Constant", a] for a in sub]]
+                r = ["dot", V, cvec, draw(st.sampled_from(["dot", "matmul"]))] if draw(st.booleans()) \
+                    else ["dot", cvec, V, draw(st.sampled_from(["dot", "matmul"]))]
+                forms.append("x.dot(constants)")
+            elif style == "vsum" and len(set(sub)) == 1:
                 r = ["vsum", V] if draw(st.booleans()) else ["vector_sum", V]
                 a = sub[0]
                 if a != 1:
@@ -143,8 +160,14 @@ def render_affine(draw, coefs, const, env, allow_vector_forms=True, _inner=False
     if expr is None:
         expr = ["bin", "*", ["const", "pyfloat", 0.0], _var_recipe(sorted(coefs, key=natural_key)[0], env)]
     if const != 0 or (not _inner and draw(st.integers(0, 4)) == 0):
-        style = draw(st.integers(0, 3))
-        if style == 0 and const != 0:
+        style = draw(st.integers(0, 4))
+        if style == 4:
+            # an additive variable-free power: Constant(b) ** e
+            b, e = draw(st.sampled_from([(2, 3), (3, 2), (5, 0), (-2, 3)]))
+            expr = ["bin", "+", ["bin", "+", expr, ["bin", "**", ["const", "Constant", b], _cnum(draw, e, kinds=("pyint", "pyfloat"))]],
+                    _cnum(draw, const - float(b) ** e)]
+            forms.append("Constant**k")
+        elif style == 0 and const != 0:
             expr = ["bin", "+", _cnum(draw, const), expr]
         elif style == 1:
             expr = ["bin", "-", expr, _cnum(draw, -const)]
@@ -190,7 +213,7 @@ def lp_envs(draw):
         return {"lb": lb, "ub": ub}
     env = {"scalars": [dict(name=n, **bnd()) for n in snames], "vectors": [], "matrices": [], "params": [], "views": {}}
     for n in vnames:
-        env["vectors"].append(dict(name=n, n=draw(st.integers(1, 4)), **bnd()))
+        env["vectors"].append(dict(name=n, n=draw(st.sampled_from([1, 2, 2, 3, 3, 4, 4, 4, 12])), **bnd()))  # 12: two-digit indices
     if nm:
         env["matrices"].append(dict(name=draw(st.sampled_from(gen.MATRIX_NAMES)), r=draw(st.integers(1, 2)),
                                     c=draw(st.integers(1, 2)), sym=False, **bnd()))
